@@ -1,1 +1,631 @@
+(* C14 -- proofs: every read returns the value computed for the current state. *)
 From V Require Import Common.NumFacts C14.Model.
+From Coq Require Import Lia Arith.
+
+(* ---------- list helpers ---------- *)
+Lemma nth_upd {A} (l : list A) i j x d :
+  nth j (upd l i x) d = if (Nat.eqb i j && Nat.ltb i (length l))%bool then x else nth j l d.
+Proof.
+  revert i j; induction l as [|h t IH]; intros i j.
+  - cbn [upd length]. destruct i; cbn; rewrite ?Bool.andb_false_r; reflexivity.
+  - destruct i as [|i], j as [|j]; cbn [upd nth]; try reflexivity.
+    rewrite IH. reflexivity.
+Qed.
+
+Lemma nth_upd_same_ref {A} (l : list A) i x d : (i < length l)%nat -> nth i (upd l i x) d = x.
+Proof.
+  intros H. rewrite nth_upd, Nat.eqb_refl. destruct (Nat.ltb_spec i (length l)); [reflexivity | lia].
+Qed.
+
+Lemma nth_upd_other_ref {A} (l : list A) i j x d : i <> j -> nth j (upd l i x) d = nth j l d.
+Proof.
+  intros H. rewrite nth_upd. destruct (Nat.eqb_spec i j); [contradiction | reflexivity].
+Qed.
+
+Lemma nth_app_old {A} (l : list A) x j d : (j < length l)%nat -> nth j (l ++ [x]) d = nth j l d.
+Proof. intros H. apply app_nth1; exact H. Qed.
+
+Lemma nth_app_new {A} (l : list A) x d : nth (length l) (l ++ [x]) d = x.
+Proof. rewrite app_nth2 by lia. rewrite Nat.sub_diag. reflexivity. Qed.
+
+Lemma list_eqb_nat_eq (a b : list nat) : list_eqb Nat.eqb a b = true -> a = b.
+Proof.
+  revert b; induction a as [|x a IH]; intros [|y b] H; cbn in H; try discriminate; auto.
+  apply Bool.andb_true_iff in H as [H1 H2]. apply Nat.eqb_eq in H1. f_equal; auto.
+Qed.
+
+(* ---------- memo lookups ---------- *)
+Lemma mget_mset (m : memo) n v n' :
+  mget (mset m n v) n' = if Nat.eqb n n' then Some v else mget m n'.
+Proof.
+  induction m as [|[k w] t IH]; cbn [mset mget].
+  - reflexivity.
+  - destruct (Nat.eqb_spec k n) as [E|NE].
+    + subst k. cbn [mget]. destruct (Nat.eqb_spec n n'); reflexivity.
+    + destruct (Nat.ltb n k) eqn:L; cbn [mget].
+      * destruct (Nat.eqb_spec n n') as [E2|NE2]; [reflexivity|]. reflexivity.
+      * rewrite IH. destruct (Nat.eqb_spec k n') as [E3|NE3]; [|reflexivity].
+        subst k. destruct (Nat.eqb_spec n n') as [E4|NE4]; [congruence | reflexivity].
+Qed.
+
+(* ---------- numeric equality on vectors ---------- *)
+Lemma qeqb_eq a b : qeqb a b = true -> a == b.
+Proof. apply Qeq_bool_iff. Qed.
+
+Lemma veqb_refl a : veqb a a = true.
+Proof.
+  induction a as [|x a IH]; cbn; auto. rewrite IH, Bool.andb_true_r.
+  apply Qeq_bool_iff. reflexivity.
+Qed.
+
+Lemma veqb_vadd a a' b b' :
+  veqb a a' = true -> veqb b b' = true -> veqb (vadd a b) (vadd a' b') = true.
+Proof.
+  revert a' b b'; induction a as [|x a IH]; intros [|x' a'] b b' H1 H2; cbn in H1; try discriminate.
+  - reflexivity.
+  - apply Bool.andb_true_iff in H1 as [Hx Ha].
+    destruct b as [|y b], b' as [|y' b']; cbn in H2; try discriminate; cbn; auto.
+    apply Bool.andb_true_iff in H2 as [Hy Hb].
+    apply Bool.andb_true_iff; split.
+    + apply Qeq_bool_iff. apply Qeq_bool_iff in Hx. apply Qeq_bool_iff in Hy. rewrite Hx, Hy. reflexivity.
+    + apply IH; assumption.
+Qed.
+
+Lemma veqb_vsum zs zs' : list_eqb veqb zs zs' = true -> veqb (vsum_rows zs) (vsum_rows zs') = true.
+Proof.
+  revert zs'; induction zs as [|z zs IH]; intros [|z' zs'] H; cbn in H; try discriminate.
+  - apply veqb_refl.
+  - apply Bool.andb_true_iff in H as [H1 H2]. unfold vsum_rows; cbn [fold_right].
+    apply veqb_vadd; [exact H1 | apply IH; exact H2].
+Qed.
+
+(* equality of the phase-tagged composition lists handed to mixture.x<name> *)
+Definition pz_eqb (l l' : list (phase * vec)) : bool :=
+  list_eqb (fun a b => Nat.eqb (fst a) (fst b) && veqb (snd a) (snd b)) l l'.
+
+Lemma pz_eqb_combine ps zs zs' :
+  list_eqb veqb zs zs' = true -> pz_eqb (combine ps zs) (combine ps zs') = true.
+Proof.
+  revert zs zs'; induction ps as [|p ps IH]; intros zs zs' H; cbn; auto.
+  destruct zs as [|z zs], zs' as [|z' zs']; cbn in H; try discriminate; cbn; auto.
+  apply Bool.andb_true_iff in H as [H1 H2].
+  rewrite Nat.eqb_refl, H1. cbn. apply IH; exact H2.
+Qed.
+
+Inductive rd_equiv : rd -> rd -> Prop :=
+| re_none : rd_equiv RNone RNone
+| re_val x y : x == y -> rd_equiv (RVal x) (RVal y).
+
+Lemma rd_equiv_refl r : rd_equiv r r.
+Proof. destruct r; constructor. reflexivity. Qed.
+
+Section Proofs.
+Variable calc1 : nat -> nat -> option phase -> vec -> Q -> Q -> Q.
+Variable calcx : nat -> nat -> list (phase * vec) -> Q -> Q -> Q.
+Variable shared_key : bool.
+
+(* the property-package functions respect numeric equality of their arguments *)
+Definition calc1_respects : Prop := forall pkg name p z z' T T' P P',
+  veqb z z' = true -> T == T' -> P == P' -> calc1 pkg name p z T P == calc1 pkg name p z' T' P'.
+Definition calcx_respects : Prop := forall pkg name l l' T T' P P',
+  pz_eqb l l' = true -> T == T' -> P == P' -> calcx pkg name l T P == calcx pkg name l' T' P'.
+
+Hypothesis calc1_ext : calc1_respects.
+Hypothesis calcx_ext : calcx_respects.
+
+Notation value_at := (value_at calc1 calcx).
+Notation get_property := (get_property calc1 calcx).
+Notation spec_read := (spec_read calc1 calcx).
+Notation step := (step calc1 calcx shared_key).
+Notation step_valid := (step_valid calc1 calcx shared_key).
+Notation run := (run calc1 calcx shared_key).
+Notation run_world := (run_world calc1 calcx shared_key).
+Notation read_all := (read_all calc1 calcx).
+
+Lemma value_at_ext pkg name l0 c0 lit ck :
+  key_matches (Some (l0, c0)) lit ck = true -> value_at pkg name lit ck == value_at pkg name l0 c0.
+Proof.
+  cbn [key_matches]. intros H. apply Bool.andb_true_iff in H as [HL HC].
+  unfold literal_eqb in HL. apply Bool.andb_true_iff in HL as [HL HP]. apply Bool.andb_true_iff in HL as [HPh HT].
+  apply qeqb_eq in HT. apply qeqb_eq in HP.
+  unfold Model.value_at.
+  destruct (l_ph lit) as [|p|ps], (l_ph l0) as [|p0|ps0]; cbn in HPh; try discriminate;
+    destruct ck as [z|zs], c0 as [z0|zs0]; cbn in HC; try discriminate.
+  - apply calc1_ext; assumption.
+  - apply calc1_ext; try assumption. apply veqb_vsum; exact HC.
+  - apply Nat.eqb_eq in HPh; subst p0. apply calc1_ext; assumption.
+  - apply Nat.eqb_eq in HPh; subst p0. apply calc1_ext; try assumption. apply veqb_vsum; exact HC.
+  - apply list_eqb_nat_eq in HPh; subst ps0. apply calcx_ext; try assumption.
+    apply pz_eqb_combine. cbn. rewrite HC. reflexivity.
+  - apply list_eqb_nat_eq in HPh; subst ps0. apply calcx_ext; try assumption.
+    apply pz_eqb_combine; exact HC.
+Qed.
+
+(* ---------- the invariant ---------- *)
+Definition nobj (c : cstate) : nat := length (cobjs c).
+
+Definition cwf (c : cstate) : Prop :=
+  forall i, (i < nobj c)%nat ->
+    (c_k (cobj_of c i) < length (keys c))%nat /\ (c_m (cobj_of c i) < length (memos c))%nat.
+
+(* objects share a memo dict exactly when they share the key cell; sharers use the same package *)
+Definition lockstep (c : cstate) : Prop :=
+  forall i j, (i < nobj c)%nat -> (j < nobj c)%nat ->
+    (c_m (cobj_of c i) = c_m (cobj_of c j) <-> c_k (cobj_of c i) = c_k (cobj_of c j)) /\
+    (c_m (cobj_of c i) = c_m (cobj_of c j) -> c_pkg (cobj_of c i) = c_pkg (cobj_of c j)).
+
+(* every entry of the dict an object points to was computed for the key that object points to *)
+Definition memo_ok (c : cstate) : Prop :=
+  forall i, (i < nobj c)%nat -> forall lit ck,
+    key_of c (c_k (cobj_of c i)) = Some (lit, ck) ->
+    forall name v, mget (memo_of c (c_m (cobj_of c i))) name = Some v ->
+      v == value_at (c_pkg (cobj_of c i)) name lit ck.
+
+Definition Inv (c : cstate) : Prop := cwf c /\ lockstep c /\ memo_ok c.
+
+Lemma Inv_cs0 : Inv cs0.
+Proof.
+  split; [|split].
+  - intros j Hj. unfold nobj in Hj; cbn in Hj; lia.
+  - intros j1 j2 Hj. unfold nobj in Hj; cbn in Hj; lia.
+  - intros j Hj. unfold nobj in Hj; cbn in Hj; lia.
+Qed.
+
+(* ---------- a memo write preserves the invariant ---------- *)
+Lemma write_inv c i lit ck name m1 :
+  Inv c -> (i < nobj c)%nat ->
+  (m1 = [] \/ (m1 = memo_of c (c_m (cobj_of c i)) /\
+               key_matches (key_of c (c_k (cobj_of c i))) lit ck = true)) ->
+  Inv (mkcs (cobjs c) (upd (keys c) (c_k (cobj_of c i)) (Some (lit, ck)))
+            (upd (memos c) (c_m (cobj_of c i))
+                 (mset m1 name (value_at (c_pkg (cobj_of c i)) name lit ck)))).
+Proof.
+  intros (WF & LS & MO) Hi Hm1.
+  destruct (WF i Hi) as [Hk Hm].
+  remember (cobj_of c i) as co eqn:Eco.
+  remember (value_at (c_pkg co) name lit ck) as v0 eqn:Ev0.
+  set (c' := mkcs (cobjs c) (upd (keys c) (c_k co) (Some (lit, ck))) (upd (memos c) (c_m co) (mset m1 name v0))).
+  assert (EC : forall j, cobj_of c' j = cobj_of c j) by reflexivity.
+  assert (EN : nobj c' = nobj c) by reflexivity.
+  assert (EK : forall r, key_of c' r = nth r (upd (keys c) (c_k co) (Some (lit, ck))) None) by reflexivity.
+  assert (EM : forall r, memo_of c' r = nth r (upd (memos c) (c_m co) (mset m1 name v0)) []) by reflexivity.
+  assert (LK : length (keys c') = length (keys c)) by (unfold c'; cbn; apply upd_length).
+  assert (LM : length (memos c') = length (memos c)) by (unfold c'; cbn; apply upd_length).
+  clearbody c'.
+  split; [|split].
+  - intros j Hj. rewrite EN in Hj. rewrite EC, LK, LM. apply WF; exact Hj.
+  - intros j1 j2 H1 H2. rewrite EN in H1, H2. rewrite !EC. apply LS; assumption.
+  - intros j Hj lit' ck' HK name' v' HV. rewrite EN in Hj. rewrite EC in HK, HV |- *.
+    rewrite EK in HK. rewrite EM in HV.
+    destruct (LS i j Hi Hj) as [LSa LSb]. rewrite <- Eco in LSa, LSb.
+    destruct (Nat.eq_dec (c_m co) (c_m (cobj_of c j))) as [EMM|NM].
+    + assert (EKK : c_k co = c_k (cobj_of c j)) by (apply LSa; exact EMM).
+      assert (EP : c_pkg co = c_pkg (cobj_of c j)) by (apply LSb; exact EMM).
+      rewrite <- EKK in HK. rewrite <- EMM in HV. rewrite <- EP.
+      rewrite nth_upd_same_ref in HK by exact Hk. injection HK as <- <-.
+      rewrite nth_upd_same_ref in HV by exact Hm.
+      rewrite mget_mset in HV.
+      destruct (Nat.eqb_spec name name') as [ENN|NN].
+      * subst name'. injection HV as <-. rewrite Ev0. reflexivity.
+      * destruct Hm1 as [E | [E KM]]; subst m1; [discriminate HV|].
+        destruct (key_of c (c_k co)) as [[l0 c0]|] eqn:OK; [|discriminate KM].
+        rewrite (value_at_ext _ _ _ _ _ _ KM).
+        rewrite Eco. rewrite Eco in OK, HV. apply (MO i Hi l0 c0); [exact OK | exact HV].
+    + assert (NK : c_k co <> c_k (cobj_of c j)) by (intros E; apply NM, LSa; exact E).
+      rewrite nth_upd_other_ref in HK by exact NK.
+      rewrite nth_upd_other_ref in HV by exact NM.
+      apply (MO j Hj lit' ck'); assumption.
+Qed.
+
+(* ---------- _get_property ---------- *)
+Lemma get_property_st w i name flow nophase :
+  w_st (fst (get_property w i name flow nophase)) = w_st w.
+Proof.
+  unfold Model.get_property.
+  destruct (cur_key (w_st w) i nophase) as [[[total lit] ck]|]; [|reflexivity].
+  match goal with |- context [match ?x with Some _ => _ | None => _ end] => destruct x end; reflexivity.
+Qed.
+
+Lemma get_property_cobjs w i name flow nophase :
+  cobjs (w_cs (fst (get_property w i name flow nophase))) = cobjs (w_cs w).
+Proof.
+  unfold Model.get_property.
+  destruct (cur_key (w_st w) i nophase) as [[[total lit] ck]|]; [|reflexivity].
+  match goal with |- context [match ?x with Some _ => _ | None => _ end] => destruct x end; reflexivity.
+Qed.
+
+Lemma get_property_inv w i name flow nophase :
+  Inv (w_cs w) -> (i < nobj (w_cs w))%nat -> Inv (w_cs (fst (get_property w i name flow nophase))).
+Proof.
+  intros HI Hi. unfold Model.get_property.
+  destruct (cur_key (w_st w) i nophase) as [[[total lit] ck]|]; [|exact HI].
+  destruct (key_matches (key_of (w_cs w) (c_k (cobj_of (w_cs w) i))) lit ck) eqn:KM.
+  - destruct (mget (memo_of (w_cs w) (c_m (cobj_of (w_cs w) i))) name) as [v|] eqn:MG; [exact HI|].
+    cbn [fst w_cs]. apply write_inv; auto.
+  - cbn [fst w_cs]. apply write_inv; auto.
+Qed.
+
+Lemma get_property_spec w i name flow nophase :
+  Inv (w_cs w) -> (i < nobj (w_cs w))%nat ->
+  rd_equiv (snd (get_property w i name flow nophase)) (spec_read w i name flow nophase).
+Proof.
+  intros (WF & LS & MO) Hi. unfold Model.get_property, Model.spec_read.
+  destruct (cur_key (w_st w) i nophase) as [[[total lit] ck]|]; [|apply rd_equiv_refl].
+  destruct (key_matches (key_of (w_cs w) (c_k (cobj_of (w_cs w) i))) lit ck) eqn:KM.
+  - destruct (mget (memo_of (w_cs w) (c_m (cobj_of (w_cs w) i))) name) as [v|] eqn:MG.
+    + cbn [snd]. unfold out_val. constructor.
+      destruct (key_of (w_cs w) (c_k (cobj_of (w_cs w) i))) as [[l0 c0]|] eqn:OK; [|discriminate KM].
+      assert (E : v == value_at (c_pkg (cobj_of (w_cs w) i)) name lit ck).
+      { rewrite (value_at_ext _ _ _ _ _ _ KM). apply (MO i Hi l0 c0); assumption. }
+      destruct flow; rewrite E; reflexivity.
+    + cbn [snd]. apply rd_equiv_refl.
+  - cbn [snd]. apply rd_equiv_refl.
+Qed.
+
+(* ---------- reset_cache ---------- *)
+Lemma cobj_of_reset pk c i j :
+  cobj_of (reset_cache1 pk c i) j =
+  if (Nat.eqb i j && Nat.ltb i (nobj c))%bool
+  then mkc (length (keys c)) (length (memos c)) (match pk with Some p => p | None => c_pkg (cobj_of c i) end)
+  else cobj_of c j.
+Proof. unfold cobj_of, reset_cache1, nobj; cbn. apply nth_upd. Qed.
+
+Lemma reset_cache1_inv pk c i : Inv c -> Inv (reset_cache1 pk c i).
+Proof.
+  intros (WF & LS & MO).
+  assert (N : nobj (reset_cache1 pk c i) = nobj c) by (unfold nobj, reset_cache1; cbn; apply upd_length).
+  assert (LK : length (keys (reset_cache1 pk c i)) = S (length (keys c)))
+    by (unfold reset_cache1; cbn; rewrite app_length; cbn; lia).
+  assert (LM : length (memos (reset_cache1 pk c i)) = S (length (memos c)))
+    by (unfold reset_cache1; cbn; rewrite app_length; cbn; lia).
+  split; [|split].
+  - intros j Hj. rewrite N in Hj. rewrite LK, LM, cobj_of_reset.
+    destruct (Nat.eqb i j && Nat.ltb i (nobj c))%bool; cbn; [lia|].
+    destruct (WF j Hj); lia.
+  - intros j1 j2 H1 H2. rewrite N in H1, H2. rewrite !cobj_of_reset.
+    destruct (WF j1 H1) as [K1 M1]. destruct (WF j2 H2) as [K2 M2].
+    destruct (Nat.eqb i j1 && Nat.ltb i (nobj c))%bool, (Nat.eqb i j2 && Nat.ltb i (nobj c))%bool; cbn.
+    + split; [tauto | reflexivity].
+    + split; [split; intros E; lia | intros E; lia].
+    + split; [split; intros E; lia | intros E; lia].
+    + apply LS; assumption.
+  - intros j Hj lit ck HK name v HV. rewrite N in Hj.
+    rewrite cobj_of_reset in HK, HV |- *.
+    destruct (Nat.eqb i j && Nat.ltb i (nobj c))%bool.
+    + cbn in HK. unfold key_of, reset_cache1 in HK; cbn in HK. rewrite nth_app_new in HK. discriminate.
+    + destruct (WF j Hj) as [Kj Mj].
+      unfold key_of, memo_of, reset_cache1 in HK, HV; cbn in HK, HV.
+      rewrite nth_app_old in HK by exact Kj. rewrite nth_app_old in HV by exact Mj.
+      apply (MO j Hj lit ck); assumption.
+Qed.
+
+Lemma reset_cache_list_inv pk l c : Inv c -> Inv (reset_cache_list pk c l).
+Proof.
+  revert c; induction l as [|i t IH]; intros c HI; cbn; auto.
+  apply IH, reset_cache1_inv, HI.
+Qed.
+
+Lemma reset_cache_inv pk s c i : Inv c -> Inv (reset_cache pk s c i).
+Proof. intros HI. unfold reset_cache. apply reset_cache_list_inv, HI. Qed.
+
+Lemma reset_cache1_nobj pk c i : nobj (reset_cache1 pk c i) = nobj c.
+Proof. unfold nobj, reset_cache1; cbn; apply upd_length. Qed.
+Lemma reset_cache_list_nobj pk l c : nobj (reset_cache_list pk c l) = nobj c.
+Proof.
+  revert c; induction l as [|i t IH]; intros c; cbn; auto. rewrite IH. apply reset_cache1_nobj.
+Qed.
+
+(* ---------- new objects ---------- *)
+Lemma cobj_of_app c x ks ms j :
+  cobj_of (mkcs (cobjs c ++ [x]) ks ms) j =
+  if Nat.ltb j (nobj c) then cobj_of c j else if Nat.eqb j (nobj c) then x else d_cobj.
+Proof.
+  unfold cobj_of, nobj; cbn [cobjs].
+  destruct (Nat.ltb_spec j (length (cobjs c))) as [L|G].
+  - apply app_nth1; exact L.
+  - destruct (Nat.eqb_spec j (length (cobjs c))) as [E|NE].
+    + subst j. apply nth_app_new.
+    + apply nth_overflow. rewrite app_length; cbn; lia.
+Qed.
+
+Lemma new_cobj_fresh_inv c pkg : Inv c -> Inv (new_cobj_fresh c pkg).
+Proof.
+  intros (WF & LS & MO). unfold new_cobj_fresh.
+  set (x := mkc (length (keys c)) (length (memos c)) pkg).
+  assert (N : forall ks ms, nobj (mkcs (cobjs c ++ [x]) ks ms) = S (nobj c))
+    by (intros; unfold nobj; cbn; rewrite app_length; cbn; lia).
+  split; [|split].
+  - intros j Hj. rewrite N in Hj. rewrite cobj_of_app. cbn [keys memos]. rewrite !app_length; cbn [length].
+    destruct (Nat.ltb_spec j (nobj c)) as [L|G].
+    + destruct (WF j L); lia.
+    + destruct (Nat.eqb_spec j (nobj c)); [subst x; cbn; lia | lia].
+  - intros j1 j2 H1 H2. rewrite N in H1, H2. rewrite !cobj_of_app.
+    destruct (Nat.ltb_spec j1 (nobj c)) as [L1|G1], (Nat.ltb_spec j2 (nobj c)) as [L2|G2].
+    + apply LS; assumption.
+    + destruct (Nat.eqb_spec j2 (nobj c)); [|lia]. destruct (WF j1 L1). subst x; cbn.
+      split; [split; intros E; lia | intros E; lia].
+    + destruct (Nat.eqb_spec j1 (nobj c)); [|lia]. destruct (WF j2 L2). subst x; cbn.
+      split; [split; intros E; lia | intros E; lia].
+    + destruct (Nat.eqb_spec j1 (nobj c)); [|lia]. destruct (Nat.eqb_spec j2 (nobj c)); [|lia].
+      split; [tauto | reflexivity].
+  - intros j Hj lit ck HK name v HV. rewrite N in Hj.
+    rewrite cobj_of_app in HK, HV |- *.
+    destruct (Nat.ltb_spec j (nobj c)) as [L|G].
+    + destruct (WF j L) as [Kj Mj].
+      unfold key_of, memo_of in HK, HV; cbn in HK, HV.
+      rewrite nth_app_old in HK by exact Kj. rewrite nth_app_old in HV by exact Mj.
+      apply (MO j L lit ck); assumption.
+    + destruct (Nat.eqb_spec j (nobj c)); [|lia].
+      subst x; unfold key_of in HK; cbn in HK. rewrite nth_app_new in HK. discriminate.
+Qed.
+
+Lemma new_cobj_proxy_inv c i :
+  shared_key = true -> Inv c -> (i < nobj c)%nat -> Inv (new_cobj_proxy shared_key c i).
+Proof.
+  intros SK (WF & LS & MO) Hi. unfold new_cobj_proxy. rewrite SK.
+  set (x := cobj_of c i).
+  assert (N : nobj (mkcs (cobjs c ++ [x]) (keys c) (memos c)) = S (nobj c))
+    by (unfold nobj; cbn; rewrite app_length; cbn; lia).
+  (* every index of the new table denotes the cobj of an old index *)
+  assert (R : forall j, (j < S (nobj c))%nat -> exists j', (j' < nobj c)%nat /\
+              cobj_of (mkcs (cobjs c ++ [x]) (keys c) (memos c)) j = cobj_of c j').
+  { intros j Hj. rewrite cobj_of_app. destruct (Nat.ltb_spec j (nobj c)) as [L|G].
+    - exists j; auto.
+    - destruct (Nat.eqb_spec j (nobj c)); [|lia]. exists i; auto. }
+  split; [|split].
+  - intros j Hj. rewrite N in Hj. destruct (R j Hj) as (j' & L & ->). cbn [keys memos]. apply WF; exact L.
+  - intros j1 j2 H1 H2. rewrite N in H1, H2.
+    destruct (R j1 H1) as (j1' & L1 & ->). destruct (R j2 H2) as (j2' & L2 & ->). apply LS; assumption.
+  - intros j Hj lit ck HK name v HV. rewrite N in Hj.
+    destruct (R j Hj) as (j' & L & E). rewrite E in HK, HV |- *.
+    apply (MO j' L lit ck); assumption.
+Qed.
+
+(* ---------- the cache component along a step ---------- *)
+Inductive creach : cstate -> cstate -> Prop :=
+| cr_refl c : creach c c
+| cr_get c c' s i name fl np : (i < nobj c)%nat ->
+    creach (w_cs (fst (get_property (mkw s c) i name fl np))) c' -> creach c c'
+| cr_reset c c' pk i : creach (reset_cache1 pk c i) c' -> creach c c'
+| cr_fresh c c' pkg : creach (new_cobj_fresh c pkg) c' -> creach c c'
+| cr_proxy c c' i : shared_key = true -> (i < nobj c)%nat ->
+    creach (new_cobj_proxy shared_key c i) c' -> creach c c'.
+
+Lemma creach_inv c c' : creach c c' -> Inv c -> Inv c'.
+Proof.
+  induction 1 as [c | c c' s i name fl np Hi _ IH | c c' pk i _ IH | c c' pkg _ IH | c c' i SK Hi _ IH];
+    intros HI; auto.
+  - apply IH. apply (get_property_inv (mkw s c)); assumption.
+  - apply IH, reset_cache1_inv, HI.
+  - apply IH, new_cobj_fresh_inv, HI.
+  - apply IH, new_cobj_proxy_inv; assumption.
+Qed.
+
+Lemma creach_reset_list pk l c c' : creach (reset_cache_list pk c l) c' -> creach c c'.
+Proof.
+  revert c; induction l as [|i t IH]; intros c H; cbn in H; auto.
+  apply (cr_reset c c' pk i). apply IH. exact H.
+Qed.
+
+Lemma creach_read_all l s c c' :
+  Forall (fun j => (j < nobj c)%nat) l ->
+  creach (w_cs (read_all (mkw s c) l)) c' -> creach c c'.
+Proof.
+  revert s c; induction l as [|j t IH]; intros s c HF H; cbn in H; auto.
+  inversion HF as [|? ? Hj Ht]; subst.
+  apply (cr_get c c' s j O true false Hj).
+  remember (fst (get_property (mkw s c) j O true false)) as w1 eqn:E.
+  destruct w1 as [s1 c1]. cbn [w_cs].
+  apply (IH s1 c1).
+  - assert (EC : cobjs c1 = cobjs c).
+    { change c1 with (w_cs (mkw s1 c1)). rewrite E. apply (get_property_cobjs (mkw s c)). }
+    unfold nobj in *. rewrite EC. exact Ht.
+  - exact H.
+Qed.
+
+Lemma lift_cs w r : w_cs (fst (lift w r)) = w_cs w.
+Proof. reflexivity. Qed.
+
+Definition is_proxy (o : op) : bool := match o with OProxy _ => true | _ => false end.
+
+Lemma step_creach w o :
+  shared_key = true \/ is_proxy o = false -> creach (w_cs w) (w_cs (fst (step w o))).
+Proof.
+  intros HP. unfold Model.step.
+  destruct (forallb (fun i => Nat.ltb i (length (cobjs (w_cs w)))) (op_objs o)) eqn:G; [|apply cr_refl].
+  assert (GV : forall i, In i (op_objs o) -> (i < nobj (w_cs w))%nat).
+  { intros i Hi. rewrite forallb_forall in G. specialize (G i Hi). apply Nat.ltb_lt in G. exact G. }
+  destruct w as [s c]. cbn [w_cs w_st] in *.
+  destruct o; unfold Model.step_valid; cbn [w_st w_cs]; try (rewrite lift_cs; apply cr_refl); try apply cr_refl.
+  - (* ONew *)
+    destruct (new_tc s (T, P)) as [s1 tr].
+    match goal with |- context [let '(a, b) := ?x in _] => destruct x as [s2 ir] end.
+    destruct (new_obj s2 (mkobj ir tr [])) as [s3 n]. cbn [fst w_cs].
+    eapply cr_fresh; apply cr_refl.
+  - (* ORead *)
+    destruct (get_property (mkw s c) i name flow nophase) as [w1 r] eqn:E. cbn [fst].
+    apply (cr_get c (w_cs w1) s i name flow nophase); [apply GV; cbn; auto|].
+    rewrite E. apply cr_refl.
+  - (* OProxy *)
+    cbn [fst w_cs]. destruct HP as [SK|NP]; [|discriminate NP].
+    apply (cr_proxy c _ i SK); [apply GV; cbn; auto | apply cr_refl].
+  - (* OFlowProxy *) cbn [fst w_cs]. eapply cr_fresh; apply cr_refl.
+  - (* OCopy *) cbn [fst w_cs]. eapply cr_fresh; apply cr_refl.
+  - (* OUnlink *)
+    destruct (unlink s i) as [s1 [e|]]; cbn [fst w_cs]; [apply cr_refl|].
+    unfold reset_cache. eapply creach_reset_list; apply cr_refl.
+  - (* OMix *)
+    destruct energy.
+    + rewrite lift_cs.
+      apply creach_read_all with (l := srcs) (s := mix_flows (fst (set_P s i
+          (fold_right (fun j m => Qmin m (snd (tc_of s (o_tc (obj_of s j)))))
+             (snd (tc_of s (o_tc (obj_of s (hd O srcs))))) srcs))) i srcs).
+      * apply Forall_forall. intros j Hj. apply GV. cbn. right. exact Hj.
+      * apply cr_refl.
+    + cbn [fst w_cs]. apply cr_refl.
+  - (* OView *)
+    destruct (i_multi (imol_of s (o_imol (obj_of s i)))).
+    + destruct (find_view p (o_views (obj_of s i))); [apply cr_refl|].
+      destruct (index_of p (i_phases (imol_of s (o_imol (obj_of s i))))) as [k|]; [|apply cr_refl].
+      destruct (nth_error (arr s (i_data (imol_of s (o_imol (obj_of s i))))) k) as [rr|]; [|apply cr_refl].
+      destruct (new_imol s _) as [s1 ir]. destruct (new_obj s1 _) as [s2 n]. cbn [fst w_cs].
+      eapply cr_fresh; apply cr_refl.
+    + destruct (Nat.eqb p (phase_of s (imol_of s (o_imol (obj_of s i))))); apply cr_refl.
+  - (* OSetPhases *)
+    destruct ps as [|p [|p2 ps]]; try (rewrite lift_cs; apply cr_refl);
+    (destruct (i_multi (imol_of s (o_imol (obj_of s i)))); [|cbn [fst w_cs]; apply cr_refl];
+     match goal with |- context [if ?b then _ else _] => destruct b end; [apply cr_refl|];
+     match goal with |- context [multi_rephase ?a1 ?a2 ?a3] => destruct (multi_rephase a1 a2 a3) as [s1 [e|]] end;
+     cbn [fst w_cs]; [apply cr_refl|];
+     unfold reset_cache; eapply creach_reset_list; apply cr_refl).
+  - (* OResetCache *)
+    cbn [fst w_cs]. unfold reset_cache. eapply creach_reset_list; apply cr_refl.
+  - (* OSetPkg *)
+    cbn [fst w_cs]. unfold reset_cache. eapply creach_reset_list; apply cr_refl.
+Qed.
+
+Lemma step_inv w o :
+  shared_key = true \/ is_proxy o = false -> Inv (w_cs w) -> Inv (w_cs (fst (step w o))).
+Proof. intros HP HI. apply (creach_inv (w_cs w)); [apply step_creach; exact HP | exact HI]. Qed.
+
+Lemma run_world_cons w o t : run_world w (o :: t) = run_world (fst (step w o)) t.
+Proof.
+  unfold Model.run_world. cbn [Model.run].
+  destruct (step w o) as [w1 b]. cbn [fst]. destruct (run w1 t) as [w2 bs]. reflexivity.
+Qed.
+
+Lemma run_inv ops w :
+  shared_key = true \/ forallb (fun o => negb (is_proxy o)) ops = true ->
+  Inv (w_cs w) -> Inv (w_cs (run_world w ops)).
+Proof.
+  revert w; induction ops as [|o t IH]; intros w HP HI.
+  - exact HI.
+  - rewrite run_world_cons. apply IH.
+    + destruct HP as [SK|NP]; [left; exact SK|]. right. cbn in NP. apply Bool.andb_true_iff in NP. tauto.
+    + apply step_inv; [|exact HI]. destruct HP as [SK|NP]; [left; exact SK|]. right.
+      cbn in NP. apply Bool.andb_true_iff in NP. destruct NP as [NP _]. apply Bool.negb_true_iff. exact NP.
+Qed.
+
+(* ---------- main statements ---------- *)
+(* for every history from the empty world (or any world satisfying the invariant), every read on every
+   existing object returns what the property package computes for the object's current state *)
+Definition read_fresh_statement : Prop :=
+  forall ops w i name flow nophase,
+    Inv (w_cs w) ->
+    let w' := run_world w ops in
+    (i < nobj (w_cs w'))%nat ->
+    rd_equiv (snd (get_property w' i name flow nophase)) (spec_read w' i name flow nophase).
+
+Lemma read_fresh_gen ops w i name flow nophase :
+  shared_key = true \/ forallb (fun o => negb (is_proxy o)) ops = true ->
+  Inv (w_cs w) ->
+  (i < nobj (w_cs (run_world w ops)))%nat ->
+  rd_equiv (snd (get_property (run_world w ops) i name flow nophase))
+           (spec_read (run_world w ops) i name flow nophase).
+Proof.
+  intros HP HI Hi. apply get_property_spec; [apply run_inv; assumption | exact Hi].
+Qed.
+
+(* the same at the level of what a history observes: a read operation executed after any history *)
+Lemma read_op_fresh ops w i name flow nophase :
+  shared_key = true \/ forallb (fun o => negb (is_proxy o)) ops = true ->
+  Inv (w_cs w) ->
+  let w' := run_world w ops in
+  (exists r, snd (step w' (ORead i name flow nophase)) = BVal r /\
+             rd_equiv r (spec_read w' i name flow nophase) /\
+             w_st (fst (step w' (ORead i name flow nophase))) = w_st w')
+  \/ ((nobj (w_cs w') <= i)%nat /\ step w' (ORead i name flow nophase) = (w', BErr EIndex)).
+Proof.
+  intros HP HI w'. unfold Model.step. cbn [op_objs forallb]. rewrite Bool.andb_true_r.
+  destruct (Nat.ltb_spec i (length (cobjs (w_cs w')))) as [L|G].
+  - left. unfold Model.step_valid.
+    destruct (get_property w' i name flow nophase) as [w1 r] eqn:E. exists r. cbn [snd fst].
+    split; [reflexivity|]. split.
+    + replace r with (snd (get_property w' i name flow nophase)) by (rewrite E; reflexivity).
+      apply read_fresh_gen; assumption.
+    + replace w1 with (fst (get_property w' i name flow nophase)) by (rewrite E; reflexivity).
+      apply get_property_st.
+  - right. split; [exact G | reflexivity].
+Qed.
+
+(* mutators never write a memo: the cache component is untouched by every state-only operation *)
+Lemma mutator_keeps_cache w r : w_cs (fst (lift w r)) = w_cs w.
+Proof. reflexivity. Qed.
+
+End Proofs.
+
+(* ---------- the spec depends only on (class, phases, flows, T, P) and the package ---------- *)
+Record pstate := mkps { ps_multi : bool; ps_phases : list phase; ps_rows : list vec; ps_T : Q; ps_P : Q }.
+
+Definition pstate_of (s : state) (i : nat) : pstate :=
+  let o := obj_of s i in let im := imol_of s (o_imol o) in
+  mkps (i_multi im) (if i_multi im then i_phases im else [phase_of s im]) (data_rows s im)
+       (fst (tc_of s (o_tc o))) (snd (tc_of s (o_tc o))).
+
+Definition key_of_pstate (p : pstate) (nophase : bool) : option (Q * literal * compkey) :=
+  let total := qsum (map qsum (ps_rows p)) in
+  if qzerob total then None
+  else
+    let comps := map (fun r => vdivs r total) (ps_rows p) in
+    let lp := if nophase then LNo else if ps_multi p then LMany (ps_phases p) else LOne (hd O (ps_phases p)) in
+    let ck := if ps_multi p then CKn comps else CK1 (nth O comps []) in
+    Some (total, mklit lp (ps_T p) (ps_P p), ck).
+
+Lemma cur_key_pstate s i nophase : cur_key s i nophase = key_of_pstate (pstate_of s i) nophase.
+Proof.
+  unfold cur_key, key_of_pstate, pstate_of, total_of. cbn [ps_rows ps_multi ps_phases ps_T ps_P].
+  destruct (qzerob _); [reflexivity|].
+  destruct (i_multi (imol_of s (o_imol (obj_of s i)))); reflexivity.
+Qed.
+
+(* two objects (possibly in different worlds) in the same pstate with the same package read the same spec value *)
+Lemma spec_read_pstate calc1 calcx w1 i1 w2 i2 name flow nophase :
+  pstate_of (w_st w1) i1 = pstate_of (w_st w2) i2 ->
+  c_pkg (cobj_of (w_cs w1) i1) = c_pkg (cobj_of (w_cs w2) i2) ->
+  spec_read calc1 calcx w1 i1 name flow nophase = spec_read calc1 calcx w2 i2 name flow nophase.
+Proof.
+  intros EP EK. unfold spec_read. rewrite !cur_key_pstate, EP, EK. reflexivity.
+Qed.
+
+(* a freshly constructed single-phase stream is in the pstate it was constructed with *)
+Lemma new_stream_pstate calc1 calcx sk w d p T P pkg :
+  let w' := fst (step calc1 calcx sk w (ONew [d] [p] T P pkg)) in
+  pstate_of (w_st w') (length (objs (w_st w))) = mkps false [p] [d] T P /\
+  (length (objs (w_st w)) = length (cobjs (w_cs w)) ->
+   c_pkg (cobj_of (w_cs w') (length (objs (w_st w)))) = pkg /\
+   length (objs (w_st w')) = length (cobjs (w_cs w'))).
+Proof.
+  destruct w as [s c]. unfold step. cbn [op_objs forallb]. unfold step_valid. cbn [w_st w_cs].
+  unfold new_tc, new_row, new_p, new_imol, new_obj. cbn [fst snd w_st w_cs].
+  split.
+  - unfold pstate_of, obj_of, imol_of, tc_of, data_rows, phase_of, pcell_of, row. cbn.
+    rewrite !nth_app_new. cbn. rewrite !nth_app_new. cbn. rewrite !nth_app_new. reflexivity.
+  - intros EL. split.
+    + unfold new_cobj_fresh, cobj_of. cbn. rewrite EL, nth_app_new. reflexivity.
+    + unfold new_cobj_fresh. cbn. rewrite !app_length. cbn. lia.
+Qed.
+
+(* ---------- the harness stub satisfies the oracle contract (non-vacuity of the hypotheses) ---------- *)
+Lemma vdot_respects a z z' : veqb z z' = true -> vdot a z == vdot a z'.
+Proof.
+  unfold vdot, vmul, qsum.
+  revert z z'; induction a as [|x a IH]; intros [|y z] [|y' z'] H; cbn in H; try discriminate; cbn; try reflexivity.
+  apply Bool.andb_true_iff in H as [H1 H2]. apply Qeq_bool_iff in H1.
+  rewrite (IH z z' H2), H1. reflexivity.
+Qed.
+
+Lemma stub_calc1_respects : calc1_respects stub_calc1.
+Proof.
+  intros pkg name p z z' T T' P P' HZ HT HP. unfold stub_calc1.
+  rewrite (vdot_respects _ _ _ HZ), HT, HP. reflexivity.
+Qed.
+
+Lemma stub_calcx_respects : calcx_respects stub_calcx.
+Proof.
+  intros pkg name l l' T T' P P' HL HT HP. unfold stub_calcx.
+  revert l' HL; induction l as [|[p z] l IH]; intros [|[p' z'] l'] HL; cbn in HL; try discriminate; cbn [map fold_right].
+  - reflexivity.
+  - apply Bool.andb_true_iff in HL as [H1 H2]. apply Bool.andb_true_iff in H1 as [Hp Hz]. cbn in Hp, Hz.
+    apply Nat.eqb_eq in Hp; subst p'. cbn [fst snd].
+    rewrite (IH l' H2). rewrite (stub_calc1_respects pkg name (Some p) z z' T T' P P' Hz HT HP). reflexivity.
+Qed.
